@@ -295,6 +295,23 @@ class SFixed(Template[_FixedTemplateArg], AssignableType):
         round_style: FixedRoundStyle = FixedRoundStyle.TRUNCATE,
         overflow_style: FixedRoundStyle = FixedOverflowStyle.WRAP,
     ):
+        if self.left() < right or left < self.right():
+            # The formats have no bit position in common. Extend the source up
+            # to the target first (exact, only adds sign/zero bits), the case
+            # analysis in _resize_overlapping relies on overlapping formats.
+            source = SFixed[max(self.left(), right) : min(self.right(), left)](self)
+        else:
+            source = self
+
+        return source._resize_overlapping(left, right, round_style, overflow_style)
+
+    def _resize_overlapping(
+        self,
+        left: int,
+        right: int,
+        round_style: FixedRoundStyle,
+        overflow_style: FixedRoundStyle,
+    ):
         selfleft = self.left()
         selfright = self.right()
 
@@ -675,6 +692,23 @@ class UFixed(Template[_FixedTemplateArg], AssignableType):
         right: int,
         round_style: FixedRoundStyle = FixedRoundStyle.TRUNCATE,
         overflow_style: FixedRoundStyle = FixedOverflowStyle.WRAP,
+    ):
+        if self.left() < right or left < self.right():
+            # The formats have no bit position in common. Extend the source up
+            # to the target first (exact, only adds sign/zero bits), the case
+            # analysis in _resize_overlapping relies on overlapping formats.
+            source = UFixed[max(self.left(), right) : min(self.right(), left)](self)
+        else:
+            source = self
+
+        return source._resize_overlapping(left, right, round_style, overflow_style)
+
+    def _resize_overlapping(
+        self,
+        left: int,
+        right: int,
+        round_style: FixedRoundStyle,
+        overflow_style: FixedRoundStyle,
     ):
         selfleft = self.left()
         selfright = self.right()
